@@ -1,33 +1,107 @@
 """Configuration of the C05 check (see lib/props.py)."""
 P = {'id': 'C05',
  'level': 'proof',
- 'theorems': ['ptrie_refines_set', 'ptrie_reachable_related', 'contains_is_membership', 'len_is_card', 'insert_adds_exactly', 'remove_removes_exactly', 'reinsertion_idempotent', 'remove_then_reinsert', 'unlink_preserves_others', 'fsa_accepts_is_contains', 'fsa_agrees', 'walk_injective', 's_longest_prefix_spec', 'keys_enumerates', 'keys_no_duplicates', 'prefix_query_exact', 'prefix_no_duplicates', 'walk_depth_bound', 'louds_refines_set', 'sparse_refines_set', 'sparse_remove_refuted', 'louds_remove_refuted', 'louds_fsa_refuted', 'louds_long_key_refuted', 'critbit_stub_refuted', 'clone_preserves', 'ptrie_refines_set_with_clone'],
+ 'theorems': ['ptrie_refines_set',
+              'ptrie_reachable_related',
+              'contains_is_membership',
+              'len_is_card',
+              'insert_adds_exactly',
+              'remove_removes_exactly',
+              'reinsertion_idempotent',
+              'remove_then_reinsert',
+              'unlink_preserves_others',
+              'fsa_accepts_is_contains',
+              'fsa_agrees',
+              'walk_injective',
+              's_longest_prefix_spec',
+              'keys_enumerates',
+              'keys_no_duplicates',
+              'prefix_query_exact',
+              'prefix_no_duplicates',
+              'walk_depth_bound',
+              'louds_refines_set',
+              'sparse_refines_set',
+              'sparse_remove_refuted',
+              'louds_remove_refuted',
+              'louds_fsa_refuted',
+              'louds_long_key_refuted',
+              'critbit_stub_refuted',
+              'clone_preserves',
+              'ptrie_refines_set_with_clone',
+              'fsa_longest_prefix_correct',
+              'fsa_generic_is_patricia',
+              'da_refines_set',
+              'da_reachable_related',
+              'da_insert_adds_exactly',
+              'da_relocation_preserves_keys',
+              'da_lookup_is_view',
+              'da_contains_is_lookup',
+              'da_remove_refuted',
+              'da_keys_enumerates',
+              'da_prefix_query_exact',
+              'da_keys_no_duplicates',
+              'da_clone_preserves',
+              'da_refines_set_with_clone',
+              'cs_refines_set',
+              'cs_reachable_related',
+              'cs_insert_adds_exactly',
+              'cs_keys_enumerates',
+              'cs_prefix_query_exact',
+              'cs_keys_no_duplicates',
+              'cs_clone_preserves',
+              'cs_remove_refuted',
+              'da_refines_set_noop_remove',
+              'cs_refines_set_noop_remove',
+              'da_insert_err_only_when_huge',
+              'da_noerr_or_huge'],
  'trusted': ['modelled (M+S): src/fsa/zipora_trie.rs Patricia storage as written, i.e. an uncompressed 256-ary trie over a node vector '
              '(insert_patricia_actual, contains_patricia_actual, remove_patricia_actual incl. the bottom-up cleanup, keys_patricia_actual / '
              'collect_keys_patricia_recursive, keys_with_prefix_patricia_actual, impl Trie::insert num_keys, ZiporaTrie::remove, impl FiniteStateAutomaton '
              'is_final/transition with the default accepts / longest_prefix of src/fsa/traits.rs): default and cache_optimized presets, custom Patricia '
              'configs, the Trie-trait face, PatriciaTrie / CritBitTrie aliases',
-             'modelled (M+S): CompressedSparse storage (same trie, remove is a no-op) for sparse_optimized, custom config, CompressedSparseTrie wrapper; LOUDS '
-             'storage as a flat [len][bytes] record buffer (insert_louds, contains_louds_internal, keys_louds_actual after fix c7ec3ed, stub FSA view) for '
-             'space_optimized, custom config, NestedLoudsTrie wrapper; CriticalBit stubs (finding)',
-             'spec-only cells (direct BTreeSet oracle, no mechanism model): DoubleArray storage (concurrent_high_performance preset, custom config, '
-             'DoubleArrayTrie wrapper with two capacities), NestedTrieDawg (Trie::insert and build_from_keys), SimpleDawg, ParallelLoudsTrie (single-threaded '
-             'tokio runtime)',
-             'histories whose keys exceed 100 bytes are decided by the oracle only (not replayed in Coq); state ids are unbounded nat in the model'],
+             'modelled (M+S): DoubleArray storage as written (coq/C05/ModelDa.v: base/check words with terminal and free bit, create_storage, '
+             'insert_double_array with its three create-transition branches, find_free_base, relocate_state incl. the 10000-attempt search loop and the two '
+             'move loops, update_grandchildren_check_values, contains_double_array, is_final / transition, keys_double_array_actual / '
+             'keys_with_prefix_double_array_actual / collect_keys_double_array_recursive, impl Trie::insert num_keys, remove = Ok(false), impl Clone) for the '
+             'concurrent_high_performance preset, the custom DoubleArray config and the DoubleArrayTrie wrapper (two capacities)',
+             'modelled (M+S): CompressedSparse storage, twice: as the node-vector trie without remove (Model.v) and as written, a trie over HashMap<StateId, '
+             'SparseNode> (coq/C05/ModelCs.v: insert_compressed_sparse with ids = max + 1, contains_compressed_sparse, is_final / transition, keys / '
+             'keys_with_prefix, clone), for sparse_optimized, custom config, CompressedSparseTrie wrapper; LOUDS storage as a flat [len][bytes] record buffer '
+             '(insert_louds, contains_louds_internal, keys_louds_actual after fix c7ec3ed, stub FSA view) for space_optimized, custom config, NestedLoudsTrie '
+             'wrapper; CriticalBit stubs (finding)',
+             'modelled once for every storage (coq/C05/ModelFsa.v): the default FiniteStateAutomaton::accepts / longest_prefix and Trie::lookup of '
+             'src/fsa/traits.rs as a walk over an arbitrary transition / is_final; the double-array and hash-map models answer accepts / longest_prefix '
+             'through it',
+             'spec-only cells (direct BTreeSet oracle, no mechanism model): NestedTrieDawg (Trie::insert and build_from_keys), SimpleDawg, ParallelLoudsTrie '
+             '(single-threaded tokio runtime)',
+             'histories whose keys exceed 100 bytes are not replayed on the node-vector and LOUDS models (the double-array and hash-map models replay every '
+             'generated length); state ids are unbounded nat / N in the models; the u32 words of the double array are N with & | and saturating_add written '
+             'out'],
  'assumptions': ['agreement of model and code (every observation of every op of the generated histories) is established on the generated histories only',
                  'keys are byte strings (symbols < 256) in the theorems about insert; lookups are proved for arbitrary symbol lists',
-                 'u32 state ids / usize counters do not overflow (2^32 nodes are out of reach)'],
- 'level_text': 'Machine-checked Coq theorems, by induction over arbitrary operation histories, about a Gallina restatement of the trie code as written: the '
+                 'u32 state ids / usize counters do not overflow (2^32 nodes are out of reach); for the double array this is proved, not assumed: under the '
+                 'invariant every array stays below MAX_STATE = 2^31 - 2 slots and every base below MAX_BASE',
+                 'da_refines_set assumes that no insert of the history returned Err (d_noerr): by da_noerr_or_huge that can only happen once an array has grown '
+                 'to the capacity of the 31-bit format (2 147 483 133 slots); index panics of the double-array code are not modelled separately (an out-of-range read yields the '
+                 'fill word, every index is in range under the invariant); state_count / free_list / transitions() of the double array are not modelled'],
+ 'level_text': 'Machine-checked Coq theorems, by induction over arbitrary operation histories, about Gallina restatements of the trie code as written: the '
                'Patricia-storage ZiporaTrie (in fact an uncompressed 256-ary node-vector trie) started empty answers every history of insert / remove / '
                'contains / len / accepts / longest_prefix exactly like the set of keys inserted and not removed (ptrie_refines_set), under an explicit shape '
                'invariant with ghost node addresses; keys() and keys_with_prefix(p) enumerate exactly the members (with prefix p) once each; the cleanup of '
-               'remove never changes another lookup; the automaton view agrees; the LOUDS record buffer and the compressed-sparse storage refine the set on '
-               'the operations they implement; refutation theorems for the recorded findings. The model is tied to the compiled code on every run by replaying '
-               'generated histories in Coq (vm_compute) and comparing every observation; a BTreeSet oracle decides the property directly on every preset, '
-               'wrapper and alias. Proof is the right level because the quantifier is all histories over all byte strings.',
- 'level_note': 'Trusted: Coq kernel + vm_compute; the hand-written model; harness generators and oracle. Double-array storage and the DAWG types are covered '
-               'by the oracle only (labelled S-only).',
- 'technique': 'Coq proof (refinement by induction on histories, ghost-address shape invariant, frame lemmas for link insertion/removal) + model/implementation '
+               'remove never changes another lookup. The double-array storage (base/check arrays, terminal and free bits, growth, find_free_base, the three '
+               'insert branches, relocate_state with its search loop, the move of children with their bases and terminal bits and the re-parenting of '
+               'grandchildren) refines the set for every history in which no insert reports an error (da_refines_set, da_relocation_preserves_keys; invariant: '
+               "one ghost address per used slot, every used slot inside its parent's 256-window, arrays below MAX_STATE slots), with keys / keys_with_prefix / "
+               'clone. The compressed-sparse storage as a trie over hash maps refines the set for every history (cs_refines_set; its insert never errs). The '
+               'default accepts / longest_prefix of traits.rs are correct over any automaton whose language is the set (fsa_longest_prefix_correct). The LOUDS '
+               'record buffer refines the set on the operations it implements; refutation theorems for the recorded findings. The models are tied to the '
+               'compiled code on every run by replaying generated histories in Coq (vm_compute) and comparing every observation; a BTreeSet oracle decides the '
+               'property directly on every preset, wrapper and alias. Proof is the right level because the quantifier is all histories over all byte strings.',
+ 'level_note': 'Trusted: Coq kernel + vm_compute; the hand-written models; harness generators and oracle. The DAWG types and ParallelLoudsTrie are covered by '
+               'the oracle only (labelled S-only).',
+ 'technique': 'Coq proof (refinement by induction on histories, ghost-address shape invariants, frame lemmas for link insertion/removal; for the double array '
+              'a slot-by-slot closed form of the relocation loops and a language view "ghost addresses of the used terminal slots") + model/implementation '
               'differential check on operation histories by vm_compute + BTreeSet differential oracle for all cells',
- 'explanation': 'Unbounded refinement theorems for the Patricia, sparse and LOUDS storages as written; differential oracle for every TrieStrategy preset, '
-                'custom config and legacy wrapper; stubs and missing remove recorded as narrow finding classes; five small defects repaired by fix: commits.'}
+ 'explanation': 'Unbounded refinement theorems for the Patricia, double-array, sparse (two models) and LOUDS storages as written and for the default FSA walk; '
+                'differential oracle for every TrieStrategy preset, custom config and legacy wrapper; stubs and missing remove recorded as narrow finding '
+                'classes; six small defects repaired by fix: commits (one of them, the relocation limit of the double array, predicted by the model and confirmed by a scratch probe).'}
